@@ -62,4 +62,64 @@ structure GenCfg (c : Cfg) (s : StdCsf) (fast : Bool) (gaps : List (List Cmd)) :
   csfCert : CrtBlob s.csfCert
   imgCert : CrtBlob s.imgCert
 
+/-! ### executable recogniser of the shape (run by the driver on every configuration the harness generates; soundness:
+    `Proofs/HabRomGen.lean: genShape_sound`) -/
+
+def splitExtras : List CsfCmd → List Cmd × List CsfCmd
+  | [] => ([], [])
+  | x :: r =>
+    if isExtra x.cmd && x.data.isNone then
+      let (g, rest) := splitExtras r
+      (x.cmd :: g, rest)
+    else ([], x :: r)
+
+/-- candidate gaps and mandatory commands (fuel = length of the list) -/
+def unweave : Nat → List CsfCmd → List (List Cmd) × List CsfCmd
+  | 0, _ => ([], [])
+  | f + 1, l =>
+    match splitExtras l with
+    | (g, []) => ([g], [])
+    | (g, m :: r) =>
+      let (gs, ms) := unweave f r
+      (g :: gs, m :: ms)
+
+def Cmd.fields : Cmd → List Nat
+  | .insKey a b c d e f => [a, b, c, d, e, f]
+  | .autDat a b c d e f _ => [a, b, c, d, e, f]
+  | _ => []
+
+def fld (m : List CsfCmd) (i j : Nat) : Nat := ((m[i]?.map (·.cmd.fields)).getD [])[j]?.getD 0
+def dat (m : List CsfCmd) (i : Nat) : Bytes := ((m[i]?).bind (·.data)).getD []
+
+/-- the parameters read off the mandatory commands (unused ones of the fast chain: harmless defaults) -/
+def guessCsf (fast : Bool) (m : List CsfCmd) : StdCsf :=
+  if fast then
+    { srkAlg := fld m 0 2, srkSrc := fld m 0 3, srkBlob := dat m 0, csfkAlg := 0, csfCert := hdr Spec.tagCRT 4 0,
+      engCsf := fld m 1 3, cfgCsf := fld m 1 4, extras := [], imgAlg := 0, imgSlot := 2, imgCert := hdr Spec.tagCRT 4 0,
+      engDat := fld m 2 3, cfgDat := fld m 2 4, skAlg := fld m 3 2, kek := fld m 3 3, keySlot := fld m 3 4,
+      engDec := fld m 4 3, cfgDec := fld m 4 4 }
+  else
+    { srkAlg := fld m 0 2, srkSrc := fld m 0 3, srkBlob := dat m 0, csfkAlg := fld m 1 2, csfCert := dat m 1,
+      engCsf := fld m 2 3, cfgCsf := fld m 2 4, extras := [], imgAlg := fld m 3 2, imgSlot := fld m 3 4, imgCert := dat m 3,
+      engDat := fld m 4 3, cfgDat := fld m 4 4, skAlg := fld m 5 2, kek := fld m 5 3, keySlot := fld m 5 4,
+      engDec := fld m 6 3, cfgDec := fld m 6 4 }
+
+def crtBlobB (d : Bytes) : Bool :=
+  match d with
+  | _ :: _ :: _ :: p :: body => d == hdr Spec.tagCRT d.length p.toNat ++ body
+  | _ => false
+
+def shapeOk (c : Cfg) (s : StdCsf) (fast : Bool) (gaps : List (List Cmd)) : Bool :=
+  decide (c.cmds = weave gaps (mainList fast s (fun _ => 0) (sigBlob c.version []) [] (sigBlob c.version [])
+            (if isEnc c.flags then some ⟨secretKeyLocN c.ils c.app.length c.start, [], none⟩ else none))) &&
+  gaps.all (fun g => g.all isExtra) && decide (s.srkSrc ≤ 3) && decide (2 ≤ s.imgSlot) && decide (s.imgSlot ≤ 5) &&
+  decide (s.kek ≤ 3) && decide (s.keySlot ≤ 3) && crtBlobB s.srkBlob && crtBlobB s.csfCert && crtBlobB s.imgCert
+
+/-- `some (s, fast, gaps)`: the command list of the configuration is `GenCfg c s fast gaps` -/
+def genShape (c : Cfg) : Option (StdCsf × Bool × List (List Cmd)) :=
+  let u := unweave (c.cmds.length + 1) c.cmds
+  if shapeOk c (guessCsf false u.2) false u.1 then some (guessCsf false u.2, false, u.1)
+  else if shapeOk c (guessCsf true u.2) true u.1 then some (guessCsf true u.2, true, u.1)
+  else none
+
 end SpsdkVerif.Hab
